@@ -158,56 +158,27 @@ func (s *Set) Has(begin rune) bool {
 	return begin >= beginNode.Forward.Begin
 }
 
-// Complement computes the complement of a set.
+// Complement computes the complement of a set within [0, endSymbol].
 func (s *Set) Complement(endSymbol rune) *Set {
 	set := NewSet()
-	if s.Len() == 0 {
-		node := Node{
-			Forward:  &set.Tail,
-			Backward: &set.Head,
-			Begin:    0,
-			End:      endSymbol,
-		}
-		set.Head.Forward = &node
-		set.Tail.Backward = &node
-		return set
-	}
-	if s.Head.Forward.Begin == 0 && s.Head.Forward.End == endSymbol {
-		return set
-	}
-	a, b := &s.Head, &set.Head
 	pre := rune(0)
-	if pre == a.Forward.Begin {
-		a = a.Forward
-		pre = a.End + 1
-	}
-	a = a.Forward
-	for a.Forward != nil {
-		node := Node{
-			Backward: b,
-			Begin:    pre,
-			End:      a.Begin - 1,
+	for node := s.Head.Forward; node != nil && node.Forward != nil; node = node.Forward {
+		if node.Begin > endSymbol {
+			break
 		}
-		if a.End == endSymbol {
-			pre = endSymbol
-		} else {
-			pre = a.End + 1
+		if node.Begin > pre {
+			set.AddRange(pre, node.Begin-1)
 		}
-		b.Forward = &node
-		a = a.Forward
-		b = b.Forward
-	}
-	if pre < endSymbol {
-		node := Node{
-			Backward: b,
-			Begin:    pre,
-			End:      endSymbol,
+		if node.End >= endSymbol {
+			return set
 		}
-		b.Forward = &node
-		b = b.Forward
+		if node.End >= pre {
+			pre = node.End + 1
+		}
 	}
-	b.Forward = &set.Tail
-	set.Tail.Backward = b
+	if pre <= endSymbol {
+		set.AddRange(pre, endSymbol)
+	}
 	return set
 }
 
